@@ -233,6 +233,73 @@ def check_index_provenance(run, rule):
                    ("%s = %s() inserts into %s, the table the reader resolves it in" % (member, short(ad), adders[ad])) if ok else
                    "%s receives an index into %s (from %s) but is resolved in %s by the reader (%s)" % (
                        member, adders[ad], short(ad), sorted(want_tables), sorted(short(g) for g in want_getters)))
+    # the insertion functions themselves: what they return is the table's answer on every path.  An index remembered from an
+    # earlier call (a one-entry memo under a validity flag) is the table's answer only as long as the table has not been
+    # replaced: every member function that clears, assigns or swaps the table has to lower the flag.
+    fam = [g for g in facts.functions.values() if g.get("cls") in (BLOCK, "CDNS::CdnsBlockRead") and g.get("body") is not None]
+    for q, t in sorted(adders.items()):
+        for f in facts.fns(q):
+            env = ir.Env(f["body"])
+            rets = [(st, g) for st, g, loops in ir.guarded_statements(f["body"], env) if st.get("k") == "Return" and st.get("e") is not None]
+            for st, g in rets:
+                e = ir.unwrap_all_casts(st["e"])
+                src = e
+                if isinstance(e, dict) and e.get("k") == "Ref" and e.get("d") == "local" and env.defs.get(path(e)[0]) is not None:
+                    src = ir.unwrap_all_casts(env.defs[path(e)[0]])
+                def table_call(x_):
+                    x_ = ir.unwrap_all_casts(x_)
+                    return isinstance(x_, dict) and x_.get("k") == "MCall" and (
+                        (path(x_.get("recv")) == ("this", t) and callee_name(x_) in ("add", "add_value")) or (x_.get("callee") or {}).get("cls") == BLOCK)
+                from_table = table_call(src)
+                if not from_table and isinstance(e, dict) and e.get("k") == "Ref" and e.get("d") == "local":
+                    # `index_t ret; if (!m_t.find(x, ret)) ret = m_t.add_value(..); return ret;` - every write of the local is the table's
+                    lp_ = path(e)
+                    writes, good = 0, 0
+                    for x in ir.walk(f["body"]):
+                        if x.get("k") == "Decl":
+                            for v_ in x.get("vars", []):
+                                if ("l:%s#%s" % (v_.get("n"), v_.get("id")),) == lp_ and v_.get("init") is not None:
+                                    writes += 1
+                                    good += 1 if table_call(v_["init"]) else 0
+                        elif x.get("k") == "Bin" and (x.get("op") or "").endswith("=") and x.get("op") not in ("==", "!=", "<=", ">=") and path(x.get("lhs")) == lp_:
+                            writes += 1
+                            good += 1 if (x["op"] == "=" and table_call(x.get("rhs"))) else 0
+                        elif x.get("k") == "MCall" and any(path(a_) == lp_ for a_ in x.get("args", [])):
+                            writes += 1
+                            good += 1 if (path(x.get("recv")) == ("this", t) and callee_name(x) == "find") else 0
+                    from_table = writes > 0 and writes == good
+                if from_table:
+                    continue
+                n += 1
+                key = "%s:returns-the-table's-answer" % short(q)
+                mp = path(e) if isinstance(e, dict) else None
+                flags_ = [a_[1] if isinstance(a_[1], str) else ir.path_str(a_[1]) for a_ in ir.conjuncts(g) if a_[0] == "nz"]
+                flags_ = [x_ for x_ in flags_ if x_.startswith("this.") and x_.count(".") == 1]
+                if not (mp and len(mp) == 2 and mp[0] == "this" and flags_):
+                    run.ob(rule, key, False, f, st.get("l", 0),
+                           "%s returns %s, which is not what %s.add() answered" % (short(q), show(st["e"]), t))
+                    continue
+                flag = flags_[0].split(".", 1)[1]
+                stale = []
+                for g_ in fam:
+                    touches = False
+                    for x in ir.walk(g_["body"]):
+                        if x.get("k") == "MCall" and callee_name(x) in ("clear", "swap", "assign") and path(x.get("recv")) == ("this", t):
+                            touches = True
+                        if x.get("k") in ("Bin", "OpCall") and x.get("op") == "=":
+                            l_ = x.get("lhs") if x["k"] == "Bin" else (x.get("args") or [None])[0]
+                            if l_ is not None and path(l_) == ("this", t):
+                                touches = True
+                    if not touches:
+                        continue
+                    lowers = any(x.get("k") == "Bin" and x.get("op") == "=" and path(x.get("lhs")) == ("this", flag) and const_value(x.get("rhs")) == 0
+                                 for x in ir.walk(g_["body"]))
+                    if not lowers:
+                        stale.append(short(g_["qn"]))
+                run.ob(rule, key, not stale, f, st.get("l", 0),
+                       "%s answers from a remembered index only while %s is set, and every function that replaces %s lowers it" % (short(q), flag, t) if not stale else
+                       "%s returns the remembered index %s while %s is set, but %s replace(s) %s and leave(s) %s set: the index then addresses "
+                       "an entry of the table that is gone" % (short(q), mp[1], flag, ", ".join(sorted(set(stale))), t, flag))
     # list elements: vectors handed to add_question_list / add_rr_list are filled by add_question / add_rr
     for listfn, elemfn, lst_add in (("CDNS::CdnsBlock::add_generic_qlist", "CDNS::CdnsBlock::add_question", "CDNS::CdnsBlock::add_question_list"),
                                     ("CDNS::CdnsBlock::add_generic_rrlist", "CDNS::CdnsBlock::add_rr", "CDNS::CdnsBlock::add_rr_list")):
